@@ -110,6 +110,11 @@ def gen_cfg(rng, family=None):
             grp.append(dict(age=[lo, hi], do_cache=rng.choice([None, True, False])))
         nets.append(dict(type='pool', src=rng.choice(grp), dst=rng.choice(grp), beta=rng.choice([0.0, 0.2, 0.6, 1.0]),
                          timepar=rng.random() < 0.5, contacts=rng.choice([0.5, 1, 3]), n_agents=n_agents))
+        if rng.random() < 0.4:      # the plural container over the same selectors (explicit uids, callables, None, AgeGroups), 2x2 or 2x3
+            ks = rng.sample(grp, 2); kd = rng.sample(grp, rng.choice([2, 3]))
+            nets.append(dict(type='pools', beta=rng.choice([0.0, 0.3, 0.8]), n_agents=n_agents,
+                             src_groups=[[f's{i}', g] for i, g in enumerate(ks)], dst_groups=[[f'd{i}', g] for i, g in enumerate(kd)],
+                             contacts=[[rng.choice([0.5, 1.0, 2.0]) for _ in kd] for _ in ks]))
         if rng.random() < 0.6:
             nets.append(dict(type=rng.choice(['random', 'static']), n_contacts=2, dur=0))
     rng.shuffle(nets)
@@ -118,7 +123,7 @@ def gen_cfg(rng, family=None):
     if family == 'maternal':
         dem.append(dict(type='pregnancy', fertility_rate=rng.choice([80, 200]), burnin=True))
         if rng.random() < 0.5: dem.append(dict(type='deaths', death_rate=rng.choice([10, 40])))
-    elif family == 'pool' and any(str(n.get('src', '')).startswith('uids_') or str(n.get('dst', '')).startswith('uids_') for n in nets) and rng.random() < 0.8:
+    elif family == 'pool' and any(str(g).startswith('uids_') for n in nets for g in [n.get('src', ''), n.get('dst', '')] + [x[1] for x in n.get('src_groups', []) + n.get('dst_groups', [])]) and rng.random() < 0.8:
         dem = [dict(type='deaths', death_rate=rng.choice([40, 80, 150]))]   # fixed uid groups must shed their dead
     elif family == 'pool' and any(c12_groups.is_age(n.get('src')) or c12_groups.is_age(n.get('dst')) for n in nets) and rng.random() < 0.8:
         dem = [dict(type='births', birth_rate=rng.choice([30, 60])), dict(type='deaths', death_rate=rng.choice([20, 50]))]   # band membership must move
@@ -136,6 +141,20 @@ def gen_cfg(rng, family=None):
     cfg['diseases'] = ds
     cfg['rel'] = None if rng.random() < 0.25 else dict(seed=rng.randint(0, 10**6), p_zero=rng.choice([0.0, 0.15, 0.4]),
                                                         edge_beta=rng.random() < 0.6)
+    if rng.random() < 0.3:      # the user changes transmissibilities during the run (public handles; 0 is a value like any other)
+        sched = []
+        for _ in range(rng.choice([1, 2, 3])):
+            e = dict(ti=rng.randint(0, cfg['npts'] - 1), op=rng.choice(['imul', 'imul', 'set', 'update', 'mul', 'idiv']))
+            e['x'] = rng.choice([1.0, 2.0, 4.0]) if e['op'] == 'idiv' else rng.choice([0.0, 0.0, 0.5, 1.0]) if e['op'] in ('imul', 'mul') else rng.choice([0.0, 0.0, 0.3, 1.0])
+            pool_routes = [i for i, n in enumerate(nets) if n['type'] in ('pool', 'pools')]
+            if pool_routes and rng.random() < 0.4:
+                e['route'] = rng.choice(pool_routes)
+                if e['op'] in ('mul', 'update'): e['op'] = 'imul' if e['x'] <= 1 else 'set'     # in place: sub-pools of the container share the object
+                if e['op'] == 'imul' and e['x'] > 1: e['x'] = 0.5
+            else:
+                e['disease'] = rng.randrange(len(ds))
+            sched.append(e)
+        cfg['beta_sched'] = sorted(sched, key=lambda e: e['ti'])
     return cfg
 
 
@@ -214,7 +233,7 @@ def mk_network(n):
         return ss.MixingPool(src=pool_group(n['src'], n.get('n_agents'), shared), dst=pool_group(n['dst'], n.get('n_agents'), shared), beta=beta,
                              contacts=ss.poisson(lam=n['contacts']), **kw)
     if t == 'pools':     # MixingPools (plural): a rectangular array of pools between two age groups
-        return c12_groups.mk_pools(n)
+        return c12_groups.mk_pools(n, pool_group)
     if t == 'prenatal': return ss.PrenatalNet()
     if t == 'postnatal': return ss.PostnatalNet()
     if t == 'hub':       # static bipartite graph: few low-uid hubs joined to everybody else (edges come out sorted by p1)
@@ -285,9 +304,118 @@ def build(cfg):
     pars['networks'] = [mk_network(n) for n in cfg['networks']]
     dem = [impl._demog(d) for d in cfg.get('demographics', [])]
     if dem: pars['demographics'] = dem
+    intvs = []
     if cfg.get('rel'):
-        pars['interventions'] = [make_rel_intervention(cfg['rel'])]
+        intvs.append(make_rel_intervention(cfg['rel']))
+    if cfg.get('beta_sched'):
+        intvs.append(make_beta_sched(cfg['beta_sched']))
+    if intvs: pars['interventions'] = intvs
     return ss.Sim(**pars)
+
+
+# ---------------------------------------------------------------------------
+# the beta the configuration DENOTES (round 5): what the user wrote, and what the user did to it during the run
+
+def base_value(x):
+    """ the value a beta was given as: `v` of a time parameter, the number itself otherwise """
+    import starsim as ss
+    if isinstance(x, ss.TimePar):
+        return float(np.asarray(x.v, dtype=np.float64).ravel()[0])
+    return float(x)
+
+
+def configured_betas(cfg):
+    """ disease name -> function (standardised network key, direction) -> the base value the configuration gives that
+        direction of that route (None = not derivable).  Handles the C12 format (kind scalar / dict) and the zoo format. """
+    import starsim as ss
+    def num(o):
+        if isinstance(o, dict): o = o.get('v')
+        return float(o) if isinstance(o, (int, float)) and not isinstance(o, bool) else None
+    out = {}
+    for d in cfg.get('diseases', []):
+        if not isinstance(d, dict) or 'type' not in d: continue
+        name = d.get('name', d['type'])
+        b = d.get('beta')
+        if isinstance(b, dict) and b.get('kind') == 'scalar':
+            v = num(b); out[name] = (lambda k, dd, v=v: v)
+        elif isinstance(b, dict):
+            ents = b['entries'] if b.get('kind') == 'dict' else b
+            tab = {}
+            for k, e in ents.items():
+                tab[ss.standardize_netkey(k)] = [num(x) for x in e] if isinstance(e, (list, tuple)) else [num(e), num(e)]
+            out[name] = (lambda k, dd, tab=tab: (tab.get(k) or [None, None])[dd])
+        elif isinstance(b, (int, float)) and not isinstance(b, bool):
+            out[name] = (lambda k, dd, v=float(b): v)
+    return out
+
+
+def make_beta_sched(sched):
+    """ the user changes a transmissibility DURING the run through the public handles: `pars.beta *= f`, `/= g`,
+        `pars.beta.set(v)`, `pars.update(beta=v)`, `pars.beta = pars.beta * f` (f, v may be exactly 0).  The object keeps
+        what each beta has been made to be (`scale` per disease / per pool route: the same float operations on the base
+        value), so the oracle can say which beta is IN FORCE at every later transmission step. """
+    import starsim as ss
+
+    class BetaSched(ss.Intervention):
+        def __init__(self, sched=None, **kw):
+            super().__init__(**kw)
+            self.sched = [dict(e) for e in (sched or [])]
+            self.ops = {}        # ('disease', name) / ('route', index) -> list of applied ops (op, x), in order
+            self.applied = []
+
+        @staticmethod
+        def apply_value(v, op, x):
+            if op in ('imul', 'mul'): return v * x
+            if op == 'idiv': return v / x
+            return float(x)      # set / update
+
+        def change(self, holder, key, op, x):
+            """ holder[key] is a number, a TimePar, a list of those or a dict of those """
+            cur = holder[key]
+            if isinstance(cur, dict):
+                for k in list(cur.keys()): self.change(cur, k, op, x)
+                return
+            if isinstance(cur, (list, tuple)):
+                cur = list(cur)
+                for j in range(len(cur)): self.change(cur, j, op, x)
+                holder[key] = cur
+                return
+            if isinstance(cur, ss.TimePar):
+                if op == 'imul': cur *= x; holder[key] = cur
+                elif op == 'idiv': cur /= x; holder[key] = cur
+                elif op == 'mul': holder[key] = cur * x
+                elif op == 'set': cur.set(x)
+                elif op == 'update' and isinstance(holder, ss.Pars): holder.update({key: x})
+                else: cur.set(x)
+            else:
+                holder[key] = self.apply_value(float(cur), op, x)
+
+        def step(self):
+            sim = self.sim
+            for e in self.sched:
+                if int(e['ti']) != int(sim.ti): continue
+                if e.get('route') is not None:
+                    route = list(sim.networks.values())[e['route']]
+                    self.change(route.pars, 'beta', e['op'], e['x'])
+                    self.ops.setdefault(('route', int(e['route'])), []).append((e['op'], e['x']))
+                else:
+                    d = list(sim.diseases.values())[e['disease']]
+                    self.change(d.pars, 'beta', e['op'], e['x'])
+                    self.ops.setdefault(('disease', d.name), []).append((e['op'], e['x']))
+                self.applied.append(dict(e))
+
+        def in_force(self, target, v):
+            for op, x in self.ops.get(target, []):
+                v = self.apply_value(v, op, x)
+            return v
+    return BetaSched(sched=sched)
+
+
+def find_sched(sim):
+    for iv in sim.interventions.values():
+        if type(iv).__name__ == 'BetaSched':
+            return iv
+    return None
 
 
 # ---------------------------------------------------------------------------
@@ -301,6 +429,7 @@ class Recorder:
         self.pdepth = 0
         self.undo = []
         self.specs = {}       # id(MixingPool) -> (src spec, dst spec, n_agents) from the configuration
+        self.pool_beta = {}   # id(MixingPool) -> (configured beta, index of its route in sim.networks)
         self.agcalls = []     # every AgeGroup.__call__ in order
         self.agslots = {}; self.agobjs = []
 
@@ -361,13 +490,17 @@ class Recorder:
             for i, (k, net) in enumerate(sim.networks.items()):
                 b = betamap[ss.standardize_netkey(k)]
                 bf = [beta_float(b[0]), beta_float(b[1])]
-                r = dict(key=k, isnet=isinstance(net, ss.Network), b=bf, truthy=[bool(b[0]), bool(b[1])])
+                r = dict(key=k, isnet=isinstance(net, ss.Network), b=bf, truthy=[bool(b[0]), bool(b[1])], std=ss.standardize_netkey(k),
+                         base=[base_value(b[0]), base_value(b[1])],
+                         factor=[float(x.factor) if isinstance(x, ss.TimePar) else None for x in (b[0], b[1])])
                 if r['isnet']:
                     e = net.edges
                     r.update(kind='sexual' if isinstance(net, ss.SexualNetwork) else 'plain', p1=np.array(e.p1).astype(int),
                              p2=np.array(e.p2).astype(int), beta=np.array(e.beta, dtype=np.float64),
                              acts=np.array(e.acts, dtype=np.float64) if 'acts' in e else None, dt=float(net.t.dt), n=len(net))
                 rec['routes'].append(r)
+            sched = find_sched(sim)
+            rec['sched_ops'] = list(sched.ops.get(('disease', d.name), [])) if sched is not None else []
             R.cur = rec
             try:
                 out = orig_infect(d)
@@ -426,6 +559,11 @@ class Recorder:
             rec['people'] = R.people(mp.sim)
             rec['sti'] = int(mp.sim.ti)
             rec['spec'] = R.specs.get(id(mp))
+            rec['beta_base'] = base_value(beta)
+            rec['beta_factor'] = float(beta.factor) if isinstance(beta, ss.TimePar) else None
+            rec['beta_cfg'] = R.pool_beta.get(id(mp))       # (configured base value, route index)
+            sched = find_sched(mp.sim)
+            rec['sched_ops'] = list(sched.ops.get(('route', rec['beta_cfg'][1]), [])) if sched is not None and rec['beta_cfg'] else []
             rec['agcalls'] = []
             rec['grp_slot'] = [R.agslot(g) if isinstance(g, ss.AgeGroup) else None for g in (mp.pars.src, mp.pars.dst)]
             R.curpool = rec; R.pool_obj = mp
@@ -515,9 +653,10 @@ def run_recorded(cfg):
         np.random.seed(cfg['rand_seed'])
         sim = build(cfg)
         sim.init()
-        for n, route in zip(cfg['networks'], sim.networks.values()):
+        for ri, (n, route) in enumerate(zip(cfg['networks'], sim.networks.values())):
             for mp, ssrc, sdst, na in c12_groups.route_specs(n, route):
                 R.specs[id(mp)] = (ssrc, sdst, na)
+                if isinstance(n.get('beta'), (int, float)): R.pool_beta[id(mp)] = (float(n['beta']), ri)
                 for spec, g in ((ssrc, mp.pars.src), (sdst, mp.pars.dst)):
                     if c12_groups.is_age(spec):
                         R.agspecs = getattr(R, 'agspecs', {})
@@ -547,10 +686,11 @@ def run_recorded_zoo(cfg):
         np.random.seed(cfg.get('rand_seed', 1))
         sim = zoo_build(cfg)
         sim.init()
-        for n, route in zip(cfg.get('networks', []), sim.networks.values()):
+        for ri, (n, route) in enumerate(zip(cfg.get('networks', []), sim.networks.values())):
             if n.get('type') == 'agepools':      # impl._network: MixingPools over young = [0, cut), old = [cut, inf), default cache
                 for mp, ssrc, sdst, na in c12_groups.route_specs(dict(type='pools', split=n.get('cut', 15)), route):
                     R.specs[id(mp)] = (ssrc, sdst, na)
+                    R.pool_beta[id(mp)] = (float(n.get('beta', 0.2)), ri)
                     for spec, g in ((ssrc, mp.pars.src), (sdst, mp.pars.dst)):
                         R.agspecs = getattr(R, 'agspecs', {})
                         R.agspecs[R.agslot(g)] = spec
@@ -946,6 +1086,58 @@ def unit_boundary(ctx):
         ctx.broke('correspondence', 'C12.kernel-boundary', f'compute_transmission on r == p / p == 0 boundary edges: model `{out[3][:160]}` code `{got[:160]}`', data=dict(kind='boundary'))
 
 
+def setbeta_cases():
+    """ real time parameters given a new base value through every public handle: (description, model line, value the user's
+        action denotes, value the code holds).  Dyadic values, so the products are exact in floats and in the model. """
+    import starsim as ss
+    out = []
+    vals = [0.0, 0.25, 0.5, 0.75, 1.0]
+    for old in vals:
+        for new in vals + [None]:
+            b = ss.beta(old); b.set(new)
+            out.append((f'ss.beta({old}).set({new})', f"setbeta {enc(old)} {'-' if new is None else enc(new)}", old if new is None else new, base_value(b)))
+        for f in (0.0, 0.5, 1.0, 0.25):
+            b = ss.beta(old); b *= f
+            out.append((f'b = ss.beta({old}); b *= {f}', f'scalebeta {enc(old)} {enc(f)}', old * f, base_value(b)))
+            out.append((f'ss.beta({old}) * {f}', f'scalebeta {enc(old)} {enc(f)}', old * f, base_value(ss.beta(old) * f)))
+            out.append((f'{f} * ss.beta({old})', f'scalebeta {enc(old)} {enc(f)}', old * f, base_value(f * ss.beta(old))))
+    grp = dict(a=ss.AgeGroup(0, 15), b=ss.AgeGroup(15, None))
+    for x in (0.0, 0, 0.3, 1.0):      # a plain number overriding the default time parameter of a module
+        for what, mk, dflt in (('ss.SIS', lambda v: ss.SIS(**v), ss.SIS().pars.beta), ('ss.SIR', lambda v: ss.SIR(**v), ss.SIR().pars.beta),
+                               ('ss.HIV', lambda v: ss.HIV(**v), ss.HIV().pars.beta), ('ss.MixingPool', lambda v: ss.MixingPool(**v), ss.MixingPool().pars.beta),
+                               ('ss.MixingPools', lambda v: ss.MixingPools(src=grp, dst=grp, **v), ss.MixingPools(src=grp, dst=grp).pars.beta)):
+            if not isinstance(dflt, ss.TimePar): continue
+            m = mk(dict(beta=x))
+            out.append((f'{what}(beta={x!r}).pars.beta', f'setbeta {enc(base_value(dflt))} {enc(x)}', float(x), base_value(m.pars.beta)))
+            m = mk({}); m.pars.update(beta=x)
+            out.append((f'{what}().pars.update(beta={x!r})', f'setbeta {enc(base_value(dflt))} {enc(x)}', float(x), base_value(m.pars.beta)))
+    return out
+
+
+def unit_setbeta(ctx):
+    """ TimePar.set / scaling operators / plain numbers overriding a default beta vs setBase / scaleBase of the model """
+    cases = setbeta_cases()
+    out = ctx.drive(DRIVER, [c[1] for c in cases])
+    for (what, ln, want, got), o in zip(cases, out):
+        ctx.case(('setbeta', what), nontrivial=want == 0, sample=dict(kind='setbeta', what=what))
+        ctx.count('setbeta_cases')
+        if o == 'bad-op' or parse_rat(o) != frac(got):
+            ctx.broke('correspondence', 'C12.setbeta', f'`{what}`: the code holds the base value {got!r}, the model `{ln}` gives {o}', data=dict(kind='setbeta-unit'))
+            return
+
+
+def oracle_setbeta():
+    """ real code only: the transmissibility held after the user's action is the one the action denotes (0 is a value) """
+    fails = []
+    for what, ln, want, got in setbeta_cases():
+        if got != want:
+            fails.append(dict(signature=dict(oracle='beta-in-force', level='unit', zero=bool(want == 0)),
+                              what=f'`{what}` holds the transmissibility {got!r}; the user set it to {want!r}'
+                                   + (' — transmission that was switched off stays on' if want == 0 else '')))
+            break
+    return fails
+
+
 def agcall_lines(calls, spec_of, base=0):
     """ driver lines replaying AgeGroup.__call__ sequences: `agnew` at the first call of an object, then one `agcall` per call """
     lines = []; idx = []; seen = set()
@@ -1114,6 +1306,7 @@ def correspond(ctx):
     unit_unique(ctx)
     unit_boundary(ctx)
     unit_agegroup(ctx)
+    unit_setbeta(ctx)
     nsims = ctx.budget(14, 110)
     fams = ['plain', 'sexual', 'maternal', 'pool', 'mixed', 'churn']
     stats = dict(infect_calls=0, kernel_calls=0, edges=0, transmissions=0, pool_steps=0, pool_cases=0)
@@ -1146,8 +1339,49 @@ def oracle_records(R, cfg):
             s = dict(oracle=oracle); s.update(sig)
             fails.append(dict(signature=s, what=what))
 
+    try:
+        conf = configured_betas(cfg)
+    except Exception:
+        conf = {}
+
+    def applied(v, ops):
+        for op, x in ops:
+            v = v * x if op in ('imul', 'mul') else v / x if op == 'idiv' else float(x)
+        return v
+
+    def expected_step_value(v, factor):
+        """ per-step value of a probability-per-time `v` for the conversion factor the code holds (the factor itself is
+            judged by `timepar-beta-dt`; unit conversion is C06's) """
+        if v == 0: return 0.0
+        if v == 1: return 1.0
+        return float(1 - np.exp(np.log(1 - v) / factor))
+
     for rec in R.infects:
         tag = f"{rec['cls']} ti={rec['ti']}"
+        # the beta IN FORCE on every route and direction is the one the configuration (and the user's changes during the
+        # run) denotes: the value as given, and its per-step value for the factor the code holds
+        want_of = conf.get(rec['disease'])
+        for i, r in enumerate(rec['routes']):
+            if 'base' not in r: continue
+            for dd in (0, 1):
+                have = r['base'][dd]
+                if want_of is not None:
+                    w0 = want_of(r['std'], dd)
+                    if w0 is not None:
+                        want = applied(w0, rec.get('sched_ops', []))
+                        if have != want and not (abs(have - want) <= 1e-12 * max(abs(have), abs(want))):
+                            crossing = [int(t) for t, n_ in zip(rec['out'][0].tolist(), rec['out'][2].tolist()) if n_ == i]
+                            how = (f" after the user's changes {rec['sched_ops']}" if rec.get('sched_ops') else '')
+                            F('beta-in-force', f"{tag}: the transmissibility configured for {r['key']} direction {dd} is {want!r}{how} (given as {w0!r}), but the beta in force is "
+                                               f"{have!r} (per step {r['b'][dd]!r})" + (f": {len(crossing)} infections crossed this route in the step, e.g. agents {crossing[:4]}" if crossing and want == 0 else ''),
+                              zero=bool(want == 0))
+                            break
+                if r['factor'][dd] is not None and r['factor'][dd] > 0 and 0 <= have <= 1:
+                    ev = expected_step_value(have, r['factor'][dd])
+                    if abs(ev - r['b'][dd]) > 1e-9 * max(abs(ev), 1e-300) + 1e-15:
+                        F('beta-in-force', f"{tag}: beta of {r['key']} direction {dd} is held as {have!r} per unit time, but the per-step value used is {r['b'][dd]!r} "
+                                           f"instead of {ev!r} (conversion factor {r['factor'][dd]!r})", zero=bool(have == 0))
+                        break
         err = attach_calls(rec)
         if err:
             F('call-structure', f'{tag}: {err}')
@@ -1290,6 +1524,20 @@ def oracle_records(R, cfg):
     for rec in R.pools:
         progs = [e for e in rec['prog'] if e['kind'] == 'set_prognoses']
         src, dst = rec['src'], rec['dst']
+        tag0 = f"pool {rec['pool']} ti={rec['ti']}"; ncases = sum(len(e['uids']) for e in progs)
+        if rec.get('beta_cfg') is not None and 'beta_base' in rec:
+            want = applied(rec['beta_cfg'][0], rec.get('sched_ops', []))
+            have = rec['beta_base']
+            if have != want and not (abs(have - want) <= 1e-12 * max(abs(have), abs(want))):
+                how = (f" after the user's changes {rec['sched_ops']}" if rec.get('sched_ops') else '')
+                F('beta-in-force', f"{tag0}: the pool's transmissibility is configured as {want!r}{how}, but the beta in force is {have!r} (per step {rec['beta']!r})"
+                                   + (f": {ncases} infections crossed the pool" if want == 0 and ncases else ''), zero=bool(want == 0))
+            elif rec.get('beta_factor') and 0 <= have <= 1:
+                ev = expected_step_value(have, rec['beta_factor'])
+                if abs(ev - rec['beta']) > 1e-9 * max(abs(ev), 1e-300) + 1e-15:
+                    F('beta-in-force', f"{tag0}: the pool's beta is held as {have!r} per unit time, but the per-step value used is {rec['beta']!r} instead of {ev!r}", zero=bool(have == 0))
+        if ncases and rec['beta'] <= 0:
+            F('pool-zero', f'{tag0}: infections with beta {rec["beta"]}')
         for k, dn in enumerate(rec['diseases']):
             tag = f"pool {rec['pool']}/{dn} ti={rec['ti']}"
             if k >= len(progs):
@@ -1299,8 +1547,6 @@ def oracle_records(R, cfg):
             sus, inf, rs, rt = pre['sus'], pre['inf'], pre['rs'], pre['rt']
             if len(set(cases.tolist())) != len(cases):
                 F('pool-once', f'{tag}: an agent is infected twice')
-            if len(cases) and rec['beta'] <= 0:
-                F('pool-zero', f'{tag}: infections with beta {rec["beta"]}')
             srcinf = [v for v in src.tolist() if v < pre['n'] and inf[v] and rt[v] > 0]
             ppl = rec.get('people')
             want_dst = None
@@ -1442,7 +1688,14 @@ def monotone_case(cfg, k, variant, builder=None):
         sim = (builder or build)(cfg); sim.init()
         for _ in range(k): sim.run_one_step()
         A = sc.dcp(sim); B = sc.dcp(sim)
-        for i, d in enumerate(B.diseases.values()):
+        if variant['kind'] == 'lower-inplace':
+            # the LOWER side is made by the user's own handle on the live parameter (`pars.beta *= f`, f in [0, 1], in place)
+            ch = make_beta_sched([])
+            for i, d in enumerate(A.diseases.values()):
+                if isinstance(d, ss.Infection):
+                    ch.change(d.pars, 'beta', variant.get('op', 'imul'), variant['factor'])
+        else:
+          for i, d in enumerate(B.diseases.values()):
             if isinstance(d, ss.Infection):
                 d.pars.beta = raised(d.pars.beta, variant, i)
         st = np.random.get_state()
@@ -1459,8 +1712,12 @@ def monotone_case(cfg, k, variant, builder=None):
             # timeline calls infect() again within the sim step, from states that already differ
             la = la[:1]; lb = lb[:1]
             lost = la[-1] - lb[-1]
+            if variant['kind'] == 'lower-inplace' and variant['factor'] == 0 and la[-1]:
+                fails.append(dict(signature=dict(oracle='zero-factor', factor='beta'),
+                                  what=f"{name} step {k}: after `pars.beta {'*=' if variant.get('op', 'imul') == 'imul' else '.set'} 0` on every beta of the disease, infect() still "
+                                       f"reports {len(la[-1])} new cases (e.g. agents {sorted(la[-1])[:6]}): infections crossed zero transmissibility"))
             if lost:
-                boundary = 'zero-to-positive' if variant['kind'] == 'zero-to-positive' else 'same-zeros'
+                boundary = 'zero-to-positive' if variant['kind'] == 'zero-to-positive' else 'lowered-to-zero' if (variant['kind'] == 'lower-inplace' and variant['factor'] == 0) else 'same-zeros'
                 fails.append(dict(signature=dict(oracle='monotone-beta', boundary=boundary),
                                   what=f"{name} step {k}: from the same state and seed, raising beta ({variant}) infects {len(lb[-1])} agents instead of {len(la[-1])}, "
                                        f"but agents {sorted(lost)[:6]} infected at the lower beta are no longer infected"))
@@ -1484,6 +1741,8 @@ def search(ctx):
         ctx.fail(f['signature'], f['what'], dict(kind='unique', arr=f['arr']))
     for f in oracle_netbeta():
         ctx.fail(f['signature'], f['what'], dict(kind='netbeta-unit', dts=f['dts']))
+    for f in oracle_setbeta():
+        ctx.fail(f['signature'], f['what'], dict(kind='setbeta-unit'))
     for j in range(ctx.budget(3, 12)):      # real AgeGroup objects called directly: membership now, for every cache setting
         seed = ctx.seed * 100 + 50 + j
         fails, ncalls, skipped = c12_groups.oracle_agegroup(seed, 40)
@@ -1493,7 +1752,8 @@ def search(ctx):
     n = ctx.budget(8, 60)
     fams = ['plain', 'sexual', 'maternal', 'pool', 'mixed', 'churn']
     ev = dict(events=0, kernel_calls=0, pool_cases=0)
-    fixed = c12_extra.fixed_scenarios(ctx.seed + 1) + [pool_churn_cfg(ctx.seed, 0), pool_churn_cfg(ctx.seed, 1)]
+    fixed = c12_extra.fixed_scenarios(ctx.seed + 1) + [pool_churn_cfg(ctx.seed, 0), pool_churn_cfg(ctx.seed, 1), c12_extra.poolsmix_cfg(ctx.seed, 1),
+                                                       c12_extra.betazero_cfg(ctx.seed, 1), c12_extra.betasched_cfg(ctx.seed, 2)]
     for k in range(n + len(fixed)):
         cfg = fixed[k] if k < len(fixed) else gen_cfg(ctx.rng, fams[k % len(fams)])
         try:
@@ -1531,6 +1791,9 @@ def search(ctx):
         cfg['rel'] = cfg['rel'] and dict(cfg['rel'])
         k = ctx.rng.randint(1, max(1, cfg['npts'] - 2))
         variant = dict(kind='scale', factor=ctx.rng.choice([1.5, 3.0, 10.0]))
+        if done % 2 == 1:     # every second case: the lower side is produced through the public in-place handles (0 included)
+            variant = dict(kind='lower-inplace', op=ctx.rng.choice(['imul', 'set']), factor=[0.0, 0.5][(done // 2) % 2])
+            if variant['op'] == 'set' and variant['factor'] != 0: variant['op'] = 'imul'
         try:
             fails, sizes = monotone_case(cfg, k, variant)
         except Exception as e:
@@ -1606,6 +1869,10 @@ def replay(ctx, data):
         return bool(fails)
     if data.get('kind') == 'netbeta-unit':
         fails = oracle_netbeta(tuple(data.get('dts') or (1.0, 0.25, 1 / 365)))
+        for f in fails: print('  ', f['signature'], f['what'][:300])
+        return bool(fails)
+    if data.get('kind') == 'setbeta-unit':
+        fails = oracle_setbeta()
         for f in fails: print('  ', f['signature'], f['what'][:300])
         return bool(fails)
     if data.get('kind') == 'agegroup':
